@@ -583,6 +583,15 @@ func record(c Case, kind string) {
 		nt = true
 	}
 	cls := []string{kind, fmt.Sprintf("depth:%d", depth), fmt.Sprintf("callbacks>=1:%v", cb >= 1), "brand:" + c.Brand}
+	for _, t := range c.Top {
+		if t.Role == "mdatitem" {
+			nt = true
+			cls = append(cls, "heif-item-tree", fmt.Sprintf("heif-item-within-8-bytes-of-payload-start:%v", t.ItemAt < 8))
+		}
+	}
+	if last := c.Top[len(c.Top)-1]; len(last.Kids) == 0 && last.Role == "" && last.Len < 8 && !last.Large && !last.Full {
+		cls = append(cls, "file-ends-with-box-under-16-bytes")
+	}
 	rec.Case(nt, ev.Hash(file), cls...)
 	if nt && n <= 14 {
 		rec.Sample(kind, c)
@@ -646,7 +655,7 @@ func TestProp(t *testing.T) {
 	rec.Rule("box trees: ftyp (crx / heic / avif) followed by 1-7 top-level boxes from {moov[before*, uuid-canon[CNCV, CCTP?, CTBO, CMT1..4 with first-IFD offsets 8..100 and both byte orders, opaque boxes between, a last child of 8..15 bytes], after*], uuid-xpacket (0..9000 bytes), uuid-preview[PRVW (0..10000 bytes)], meta[hdlr, pitm, opaque*], mdat, opaque / nested unknown containers to depth 5}, 32- and 64-bit size headers, full-box headers; " +
 		"the ftyp box lists 0..16 compatible brands; every opaque payload byte is a function of its absolute offset. For k = 1..n the file is read with ReadFTYP + k x ReadMetadata through a caller-supplied bufio.Reader and recording callbacks that io.ReadAll their reader. " +
 		"oracle (computed by the writer): error nil and stream position == start of top-level box k+1 after every step; callbacks exactly the CMT/xpacket/PRVW boxes in file order; the bytes each callback's reader yields are exactly the file's bytes of that payload (CMT: from the first IFD to the end of the box); header fields (byte order, first IFD, length, directory type CMT1 root / CMT2 Exif / CMT3 maker note / CMT4 GPS; PRVW size and dimensions); PreviewCR3 on camera-layout files returns the PRVW payload. " +
-		"malformed variant: one non-top-level box, and often a chain of its descendants, declare real size + {1..2^31} or a size < 8: whatever a callback reads must be file bytes inside every enclosing box, and a nil return must leave the reader at the next top-level box. non-trivial = depth >= 3 with >= 1 callback box, or a malformed child; distinct by file bytes")
+		"malformed variant: one non-top-level box, and often a chain of its descendants, declare real size + {1..2^31} or a size < 8: whatever a callback reads must be file bytes inside every enclosing box, and a nil return must leave the reader at the next top-level box. HEIF item trees (15 %): meta[hdlr, pitm, iinf with an Exif item, iloc pointing at it, opaque*] + mdat holding the item 0..9040 bytes into its payload (position and nil error after every step; the Exif callback confined to the item); a quarter of the files end in a box of 8..15 bytes. non-trivial = depth >= 3 with >= 1 callback box, a HEIF item tree, or a malformed child; distinct by file bytes")
 	rec.Assume("a HEIF Exif item holds at least the 10-byte item prefix, a TIFF header and a one-entry directory (36 bytes): for shorter items the reader reports an error, which is not a containment question")
 	pbt.RegressDir(t, rec)
 	if !pbt.Run(t, rec, chk, rec.Env.Pick(3000, 120000), 1) {
